@@ -42,7 +42,8 @@ EXPLANATION = (
     "between computing the eviction set and deleting. (L5) only time.monotonic is read. (L6) "
     "abstract evaluation: consume() false -> (False, '44 ...retry_after...'), true -> (True, None). "
     "(L7) from_toml passes the configured capacity / refill_rate / retry_after through unchanged (abstract evaluation with the key set to 0) and get_rate_limit_config passes the like-named fields. "
-    "(L8) With rate limiting enabled a RateLimiter is installed on every path of start_server."
+    "(L8) With rate limiting enabled a RateLimiter is installed on every path of start_server. "
+    "(L9) = C04.M1: a refused request is never dispatched."
 )
 
 MW = "server.middleware"
